@@ -3,7 +3,9 @@ CONSTANTS
   EmptyAnglePathIsCwd = FALSE
   ExplicitByCanonical = TRUE
   KeyByCanonical = TRUE
+  LookupCanonical = TRUE
   MaxIncludes = 1000
 INVARIANT Refines
 INVARIANT OnceOnly
+INVARIANT OwnRefines
 CHECK_DEADLOCK TRUE
